@@ -138,6 +138,12 @@ func main() {
 			die("copy harness: %v", err)
 		}
 	}
+	if *yield && *simrtDir != "" {
+		woven := "package simrt\n\nfunc init() { Woven = true }\n"
+		if err := os.WriteFile(filepath.Join(*dst, "zzverif", "simrt", "zz_woven.go"), []byte(woven), 0o644); err != nil {
+			die("write zz_woven.go: %v", err)
+		}
+	}
 	sj, _ := json.Marshal(sites)
 	_ = os.MkdirAll(filepath.Join(*dst, "zzverif"), 0o755)
 	if err := os.WriteFile(filepath.Join(*dst, "zzverif", "sites.json"), sj, 0o644); err != nil {
